@@ -63,6 +63,13 @@ PROBES = [
      "    s3 = s1.Select(lambda b: helper2(b + 1, b)).Where(lambda a: helper2(0, a) < 5)\n"
      "    s4 = ds.Select(lambda e: e.jets.Select(lambda y: ratio(y.pt, e.met)).Count() + helper2(b=e.met, a=e.run))\n"
      "    return [s1, s2, s3, s4]\n", False, None),
+    # helpers with several defaulted parameters, called with none / some / all of them (seed C01-w6-1)
+    ("def window(v, lo=10, hi=100): return v * 3 - lo * 7 + hi\n\ndef shift(x, scale=2, offset=1000, k=5): return x * scale + offset - k\n\n"
+     "def build(ds, L, A):\n"
+     "    s1 = ds.Select(lambda e: window(e.met, 20))\n    s2 = ds.Select(lambda e: window(e.met) + window(e.run, 1, 2))\n"
+     "    s3 = ds.Select(lambda e: shift(e.met, 3) - shift(e.run, 3, 4))\n"
+     "    s4 = ds.Where(lambda e: window(e.met, 20) > shift(e.run, 1, 50)).Select(lambda e: shift(e.met, 7, 8))\n"
+     "    return [s1, s2, s3, s4]\n", False, None),
 ]
 
 
